@@ -172,6 +172,19 @@ pub fn eval_expect(expect: &Expect, rep: &RunReport, session: usize, stmt: usize
                     _ => None,
                 };
             }
+            if check == "names" || check == "names_any" {
+                return match o {
+                    Outcome::Rows(t) => {
+                        let ok = if check == "names" {
+                            serde_json::from_str::<Vec<String>>(data).map(|w| w == t.names).unwrap_or(false)
+                        } else {
+                            serde_json::from_str::<Vec<Vec<String>>>(data).map(|w| w.iter().any(|x| x == &t.names)).unwrap_or(false)
+                        };
+                        if ok { None } else { Some(("names-mismatch".into(), format!("column names {:?}, expected {data}", t.names))) }
+                    }
+                    _ => None,
+                };
+            }
             if check == "count" {
                 return match o {
                     Outcome::Rows(t) => {
